@@ -57,6 +57,16 @@ Definition sort_nodes (l : list gnode) : list gnode := fold_left (fun acc n => i
 Definition dedupe_nodes (l : list gnode) : list gnode :=
   sort_nodes (map snd (fold_left (fun acc n => aset (snd n) n acc) l [])).
 
+(* _reaches(deps, src, dst): dst can be reached from src through the edges recorded so far (fix F29).  Reachability by
+   saturation: |edges| + 1 passes, each adding the successors of everything reached so far. *)
+Fixpoint closure (fuel : nat) (edges : list (bytes * bytes)) (s : list bytes) : list bytes :=
+  match fuel with
+  | O => s
+  | S f => closure f edges (fold_left (fun acc e => if memb (fst e) acc then set_add (snd e) acc else acc) edges s)
+  end.
+Definition reaches (deps : list ((bytes * bytes) * gedge)) (src dst : bytes) : bool :=
+  memb dst (closure (S (List.length deps)) (map fst deps) [src]).
+
 (* the implicit-edge loop body for one pair (n1, n2) *)
 Definition implicit_pair (sub_set : list bytes) (st : gstate) (n1 n2 : gnode) : gstate :=
   let k1 := snd n1 in let k2 := snd n2 in
@@ -69,7 +79,8 @@ Definition implicit_pair (sub_set : list bytes) (st : gstate) (n1 n2 : gnode) : 
   match dlook (k1, k2) (g_deps st1) with
   | Some _ => st1
   | None =>
-    if negb (memb k2 d1) && negb (memb k1 d2) && negb (memb k1 sub_set) && negb (memb k2 sub_set) then
+    if negb (memb k2 d1) && negb (memb k1 d2) && negb (memb k1 sub_set) && negb (memb k2 sub_set)
+       && negb (reaches (g_deps st1) k2 k1) then
       GState (g_nodes st1) (g_refs st1) (aset k2 (set_union (set_add k1 d2) d1) nd)
              (dset (k1, k2) (GEdge (fst n1) (fst n2) EImplicit) (g_deps st1))
     else st1
@@ -107,7 +118,8 @@ Fixpoint traverse (x : fi) (st : gstate) {struct x} : list gnode * gstate :=
       let nodes := aset sig res (g_nodes st2) in
       let refs := aset p sig (g_refs st2) in
       let sub_set2 := set_union sub_set (map snd sub_nodes) in
-      let st3 := GState nodes refs (aset sig sub_set2 (g_ndeps st2)) (g_deps st2) in
+      (* fix F28: what is already known about the node's dependencies is kept when it is reached again *)
+      let st3 := GState nodes refs (aset sig (set_union sub_set2 (ndeps_of st2 sig)) (g_ndeps st2)) (g_deps st2) in
       let st4 :=
         fold_left (fun st n =>
                      let k := (snd n, sig) in
